@@ -147,6 +147,7 @@ type Pending struct {
 	Completed bool // completed by a partner (rendez-vous, signal); always enabled then
 	Data      any  // shim-specific (channel cases, ...)
 	Idle      bool // enabled only when nothing else (no thread, no timer) is enabled
+	Quiet     bool // enabled when no thread is enabled (pending timers do not count): goes before the clock
 	pos       string
 }
 
@@ -506,7 +507,7 @@ func callerPos() string {
 }
 
 func (t *Thread) enabled() bool {
-	if t.done || t.pend == nil || t.pend.Idle {
+	if t.done || t.pend == nil || t.pend.Idle || t.pend.Quiet {
 		return false
 	}
 	p := t.pend
@@ -582,6 +583,15 @@ func (e *Exec) schedule(t *Thread) {
 				rest = en[1:]
 			}
 			sort.SliceStable(rest, func(i, j int) bool { return rest[i].lastRun < rest[j].lastRun })
+		}
+		if len(en) == 0 {
+			// no thread can move: a thread waiting for quietness goes before the clock
+			for _, th := range e.threads {
+				if !th.done && th.pend != nil && th.pend.Quiet {
+					en = append(en, th)
+					break
+				}
+			}
 		}
 		nThreads := len(en)
 		clockOK := e.clk.pending()
@@ -835,3 +845,7 @@ func Absorb(p *Thread) {
 	t.chain = t.chain.MixH(p.chain).Mix(0xab50)
 	t.vc = joinVC(t.vc, p.vc)
 }
+
+// WaitQuiet parks the thread until no other thread is enabled; pending timers are left alone (virtual
+// time does not advance while somebody waits for quietness).
+func WaitQuiet() { PointOp(&Pending{Kind: "quiet", Quiet: true}) }
